@@ -132,6 +132,11 @@ def addDeps (base delivered : List Path) : List Path :=
 
 def withCalc (d : TaskDef) (delivered : List Path) : TaskDef := { d with deps := addDeps d.deps delivered }
 
+/-- `update_deps` with a result that also carries the key `uptodate` (`_extend_uptodate`: the delivered items are
+    appended to the consumer's uptodate list); keys other than `task_dep file_dep calc_dep uptodate` are ignored -/
+def withCalcU (d : TaskDef) (delivered : List Path) (utd : List Utd) : TaskDef :=
+  { withCalc d delivered with uptodate := d.uptodate ++ utd }
+
 /-! ## saved values and `getargs` -/
 
 abbrev Key := Nat
